@@ -331,8 +331,11 @@ def main(modname, argv):
         for e in total['errors'][:5]:
             sys.stderr.write(e + '\n')
         print(f"[{mod.ID}] HARNESS FAULT: {len(total['errors'])} shard error(s)")
-        return 3
+        if not reported:
+            return 3
     if reported:
+        # (each reported violation was reproduced from its replay file in a fresh interpreter, so it stands even if
+        #  another shard of the same run faulted)
         return 1
     if unreproduced and not reported:
         print(f"[{mod.ID}] HARNESS FAULT: {len(unreproduced)} candidate(s) did not reproduce from their replay file")
